@@ -51,7 +51,7 @@ impl<'a> UserModel<'a> {
                                 }
                                 if matches!(ws.cell(r, c), Some(Cell::SpillCell { a, .. }) if *a == (*row, *column))
                                 {
-                                    let _ = ws.cell_clear_contents(r, c);
+                                    let _ = ws.clear_spill_cell(r, c);
                                 }
                             }
                         }
